@@ -52,16 +52,16 @@ TEXT = {
         "technique": "stateful property-based testing: differential against fresh instances (rapid)",
     },
     "C04": {
-        "level": "Exploration: for each generated cluster view one real layer2Controller per node evaluates ShouldAnnounce over the same nodes map, speaker list, configuration (built by config.For from generated CRs) and endpoint slices; the number of announcing nodes must be exactly 1 when the closed-form eligibility predicate of the statement is non-empty and 0 otherwise, the announcer must be eligible, and a second service on the same address must elect the same node.",
+        "level": "Exploration: for each generated cluster view one real layer2Controller per node evaluates ShouldAnnounce over the same nodes map, speaker list, configuration (built by config.For from generated CRs) and endpoint slices; the number of announcing nodes must be exactly 1 when the closed-form eligibility predicate of the statement is non-empty and 0 otherwise, the announcer must be eligible, and a second service on the same address must elect the same node; a bounded space of 2 654 208 three-node views is enumerated completely in the thorough tier (every 64th view in the quick tier).",
         "design_ref": "DESIGN.md section 5",
         "note": "Trusted: the closed-form eligibility predicate written from the statement; all speakers share one view.",
-        "technique": "property-based testing: closed-form oracle + uniqueness relation over all nodes' decisions (rapid)",
+        "technique": "property-based testing: closed-form oracle + uniqueness relation over all nodes' decisions (rapid) + bounded exhaustive enumeration",
     },
     "C10": {
-        "level": "Exploration: generated endpoint-slice layouts (repeated addresses with conflicting conditions, nil/true/false ready and serving, missing node names), node conditions/labels, advertisement node selection and both traffic policies; the real bgpController.ShouldAnnounce must equal the closed-form iff of the statement on the domain where an endpoint address lives on one node, and satisfy the two reading-independent implications on the unrestricted domain.",
+        "level": "Exploration: generated endpoint-slice layouts (repeated addresses with conflicting conditions, nil/true/false ready and serving, missing node names), node conditions/labels, advertisement node selection and both traffic policies; the real bgpController.ShouldAnnounce must equal the closed-form iff of the statement on the domain where an endpoint address lives on one node, and satisfy the two reading-independent implications on the unrestricted domain; a stateful engine drives the real speaker over generated histories; a bounded space of 21 882 096 views (node state x selection x policy x three slice entries with all nine ready/serving combinations over two addresses) is enumerated completely in the thorough tier and sampled every 2048th view in the quick tier.",
         "design_ref": "DESIGN.md section 11",
         "note": "Trusted: the closed form; main domain restricts each endpoint address to one node (a pod IP is on one node).",
-        "technique": "property-based testing against a closed-form iff (rapid)",
+        "technique": "property-based testing against a closed-form iff (rapid) + bounded exhaustive enumeration",
     },
     "C12": {
         "level": "Exploration plus a complete bounded enumeration: metamorphic relations between the layer-2 announcer of a view and of a perturbed view (nodes made ineligible by speaker loss / NetworkUnavailable / exclude label, nodes added, every list permuted): the announcer is unchanged unless it was removed or a new node wins, and no address moves between two nodes eligible before and after; all 32 subsets of a 5-node eligible set x 64 address/name combinations are enumerated on every run.",
